@@ -56,6 +56,12 @@ def run_property(prop, tier, engine=None, write=True, quiet=False):
                 print(f"KNOWN-FINDING: property={prop} {k['id']} {f.rule} in {f.func}: {k['what']}")
         else:
             unlisted.append(f)
+    if R.analysis_errors and not unlisted:
+        # some rule could not decide and nothing else explains it: never a pass
+        if not quiet:
+            for er in R.analysis_errors:
+                print(f"ANALYSIS-ERROR property={prop} {er}")
+        return 2, R, []
     if write:
         rep.write_evidence(prop, tier, seed, R, time.time() - t0, len(unlisted), hits, engine,
                            extra=extra, explanation=getattr(mod, "EXPLANATION", ""))
